@@ -929,6 +929,7 @@ class SSHConnection(SSHPacketHandler, asyncio.Protocol):
         self._compressor: Optional[Compressor] = None
         self._compress_after_auth = False
         self._deferred_packets: List[Tuple[int, Sequence[bytes]]] = []
+        self._deferred_disconnect: Optional[Tuple[int, str, str]] = None
 
         self._recv_handler = self._recv_version
         self._recv_seq = 0
@@ -1866,6 +1867,13 @@ class SSHConnection(SSHPacketHandler, asyncio.Protocol):
 
         for pkttype, args in deferred_packets:
             self.send_packet(pkttype, *args)
+
+        if self._deferred_disconnect and not self._deferred_packets:
+            code, reason, lang = self._deferred_disconnect
+            self._deferred_disconnect = None
+
+            self._send_disconnect(code, reason, lang)
+            self._force_close(None)
 
     def _send_disconnect(self, code: int, reason: str, lang: str) -> None:
         """Send a disconnect packet"""
@@ -2973,6 +2981,14 @@ class SSHConnection(SSHPacketHandler, asyncio.Protocol):
 
         for chan in list(self._channels.values()):
             chan.close()
+
+        if (self._auth_complete and not self._kex_complete and
+                self._deferred_packets):
+            # Data written before this call is still waiting for a key
+            # re-exchange to complete. Send the disconnect once that
+            # data has been sent.
+            self._deferred_disconnect = (code, reason, lang)
+            return
 
         self._send_disconnect(code, reason, lang)
         self._force_close(None)
